@@ -75,4 +75,7 @@ int cmd_c03consts (void) ;
 /* iolog.c (C15) */
 void op_iolog (char **tok, int ntok) ;
 
+/* routes.c (C14) */
+int cmd_routes (void) ;
+
 #endif
